@@ -47,6 +47,8 @@ struct Plan {
     /// capacity of the manager's mailbox (default 128): with a small one, API calls issued at the same
     /// instant fill it before the shutdown request is handed over
     mailbox: Option<usize>,
+    /// the application keeps a `Peer` handle (obtained from `Network::peer`) across the shutdown
+    keep_peer_handle: bool,
 }
 
 fn scenario(run: &mut Run, rng: &mut Rng, case: u64) -> anyhow::Result<()> {
@@ -65,6 +67,7 @@ fn scenario(run: &mut Run, rng: &mut Rng, case: u64) -> anyhow::Result<()> {
         by_drop,
         at_ms: 50 + rng.below(3000),
         mailbox: *rng.pick(&[None, None, Some(1usize), Some(2)]),
+        keep_peer_handle: rng.chance(1, 2),
     };
     let p = plan.clone();
     let rt = paused_rt();
@@ -88,6 +91,7 @@ fn scenario(run: &mut Run, rng: &mut Rng, case: u64) -> anyhow::Result<()> {
         tokio::time::sleep(Duration::from_millis(150)).await;
         let peer_ids: Vec<PeerId> = peers.iter().map(|n| n.id).collect();
         let mut peer_logs: Vec<crate::peers::NodeLog> = peers.iter().map(|n| crate::peers::NodeLog::new(&n.net)).collect();
+        let kept_peer_handle = if p.keep_peer_handle && !peer_ids.is_empty() { s.net.peer(peer_ids[0]) } else { None };
         // subscribers on S
         let mut subs = vec![];
         for _ in 0..p.subscribers {
@@ -227,6 +231,7 @@ fn scenario(run: &mut Run, rng: &mut Rng, case: u64) -> anyhow::Result<()> {
             remote.push(json!({"still_lists": n.net.peers().contains(&s_id), "saw_lost": l.events.iter().any(|e| matches!(e, PeerEvent::LostPeer(p, _) if *p == s_id))}));
         }
         let handled_after = svc.log.lock().unwrap().invocations.len();
+        drop(kept_peer_handle);
         drop(net_opt);
         Ok(json!({"closed_after_ms": closed_after_ms, "shutdown_results": shutdown_results, "post": post, "pending": pend, "subscribers": sub_out, "remote": remote,
                   "handled_before": handled_before, "handled_after": handled_after}))
